@@ -48,7 +48,7 @@ Definition y_table (t : list (list ydata)) (f v : nat) : ydata := nth v (nth f t
 Definition y_init w0 (ncalls : list nat) :=
   init (option yitem) (list nat) yls unit R (yls_begin tt) None w0 (map (fun n => repeat tt n) ncalls).
 Definition y_run table tree once :=
-  run (option yitem) (list nat) yls unit R nat yls_begin (yaml_prog (y_table table) tree once) yret bump.
+  run (option yitem) (list nat) yls unit R nat yls_begin (yaml_prog (y_table table) tree once) (yret (y_table table)) bump.
 
 (* ---------- the instrumented (real-time) machines ---------- *)
 Fixpoint zip_stamps {A} (i : nat) (cs : list A) (ps : list (list (nat * nat))) : list (rcall A) :=
@@ -135,7 +135,7 @@ Fixpoint match_mono (rs : list R) (specs : list R) : bool :=
   | r :: rs' => match first_match r specs with Some suffix => match_mono rs' suffix | None => false end
   end.
 Definition y_specs table tree w0 (sch : list (choice nat)) : list R :=
-  map (fun w => flat (yspec (y_table table) (snapshot_of tree w))) (worlds_of w0 (envs_of sch)).
+  map (fun w => yans (y_table table) (snapshot_of tree w)) (worlds_of w0 (envs_of sch)).
 (* clause 1 (proved for the model): every answer is get_data_spec of a file state present during the run *)
 Definition y_member (specs : list R) (o : obs) : bool :=
   forallb (forallb (fun r => existsb (r_eqb r) specs)) o.
@@ -177,7 +177,10 @@ Local Open Scope string_scope.
 Definition is_exc (r : R) : bool := match r with 9 :: _ => true | _ => false end.
 (* result code 10: the harness saw the shared resource used outside the component's critical section *)
 Definition is_unguarded (r : R) : bool := match r with 10 :: _ => true | _ => false end.
+(* result [9; 8]: the call never returned (the scheduler found no runnable thread: deadlock) *)
+Definition is_stuck (r : R) : bool := match r with [9; 8] => true | _ => false end.
 Definition blame (o : obs) : list string :=
+  if existsb (existsb is_stuck) o then ["no_deadlock"] else
   if existsb (existsb is_unguarded) o then ["critical_section_discipline"]
   else if existsb (existsb is_exc) o then ["no_exception"] else ["linearizable"].
 Definition shape_ok {A} (calls : list (list A)) (o : obs) : bool :=
@@ -234,6 +237,7 @@ Definition asCC (x : sx) : option ccall :=
   | L [I 3%Z; k] => obind (asNat k) (fun k => Some (CDel k))
   | L [I 4%Z] => Some CLen
   | L [I 5%Z] => Some CClear
+  | L [I 6%Z; k] => obind (asNat k) (fun k => Some (CFail k))
   | _ => None
   end.
 Definition asTC (x : sx) : option tcall :=
@@ -252,6 +256,7 @@ Definition asSC (x : sx) : option scall :=
   | L [I 3%Z; s] => obind (asNat s) (fun s => Some (SGetData s))
   | L [I 4%Z; k; v] => obind (asNat k) (fun k => obind (asNat v) (fun v => Some (SFind k v)))
   | L [I 5%Z; s] => obind (asNat s) (fun s => Some (SDelData s))
+  | L [I 6%Z; s] => obind (asNat s) (fun s => Some (SFail s))
   | _ => None
   end.
 Definition asPair (x : sx) : option (nat * nat) :=
